@@ -10,17 +10,23 @@ MODULES = ["TinsModel.Props.C11"]
 AUDIT = "Audit/C11.lean"
 LEVEL = "proof"
 MANIFEST = dict(
-    text="Lean 4 theorems over a code-shaped executable model of RadioTapParser / RadioTapWriter::write_option "
-         "(build_padding_vector, update_paddings) and the RadioTap setters/getters: for every finite sequence of "
-         "field writes from the default or any canonical parsed header the options payload is the canonical layout "
-         "of the last-write map, getters return the last write, present() is the domain. The field table is "
-         "regenerated from the source on every run; model, implementation (ASan/UBSan) and the executable spec "
-         "oracle are compared on exhaustive small-scope and random setter histories, parsed headers and "
+    text="Lean 4 theorems over a code-shaped executable model of RadioTapParser, RadioTapWriter::write_option "
+         "(build_padding_vector, update_paddings) and the RadioTap constructors/setters/getters: for every finite "
+         "sequence of field writes (any order, repetitions) from the default header or from any parsed header the "
+         "decidable test decodeCanonical accepts, the options payload is the canonical layout of the last-write map "
+         "(write_canonical, setters_any_order, setters_any_order_parsed), lookups return the last write or "
+         "field_not_present, present() is the domain, trailer_size follows the FCS flag, and serialisation writes "
+         "exactly header+payload with a covering length field and re-parses to the same state (serialize_reparse). "
+         "The field table and the setter/getter field+width tables are regenerated from the source on every run and "
+         "the table theorems re-decided; model, implementation (ASan/UBSan) and the executable spec oracle are compared "
+         "on exhaustive small-scope and random setter histories, canonical and malformed parsed headers and "
          "serialize/re-parse round trips.",
     note="Trusted: Lean kernel + standard axioms; hand-written model tied by correspondence "
          "(harness/c11_radiotap.cpp); translator/gen_radiotap.py (regex over the three source files); FCS value "
-         "checked against an independent CRC-32 in the harness; inner 802.11 frames are opaque bytes.",
-    technique="Lean 4 proof (induction over field lists / padding vector invariant) + model/impl correspondence + spec oracle",
+         "checked against an independent CRC-32 in the harness; inner 802.11 frames are opaque bytes. Multi-namespace / "
+         "vendor / truncated parsed headers are modelled and compared but not covered by the theorems.",
+    technique="Lean 4 proof (induction over field lists, padding-vector invariant for update_paddings) + "
+              "model/impl correspondence + spec oracle",
     design="DESIGN.md §6 C11")
 
 META = [(8, 8), (1, 1), (1, 1), (4, 2), (2, 2), (1, 1), (1, 1), (2, 2), (2, 2), (2, 2), (1, 1), (1, 1), (1, 1), (1, 1),
@@ -85,7 +91,7 @@ def exhaustive_cases(tier, rng):
     """small-scope exhaustive setter orders: from the default header over the 8 fields it does not carry, and from
     the blank parsed header over all 14 settable fields"""
     out = []
-    kmax_default = 4 if tier == "quick" else 6
+    kmax_default = 4 if tier == "quick" else 8     # thorough: every order of every subset of the 8 missing fields
     for k in range(1, kmax_default + 1):
         for perm in itertools.permutations(UNSET_IN_DEFAULT, k):
             out.append(["new"] + [f"set {f} {hexs(distinct_value(SETTERS[f], j))}" for j, f in enumerate(perm)])
@@ -93,12 +99,6 @@ def exhaustive_cases(tier, rng):
     for k in range(1, kmax_blank + 1):
         for perm in itertools.permutations(NAMES, k):
             out.append([blank_parse()] + [f"set {f} {hexs(distinct_value(SETTERS[f], j))}" for j, f in enumerate(perm)])
-    if tier == "thorough":
-        # every order of 7 and of all 8 missing fields is 80 640 cases; sample them
-        for _ in range(6000):
-            k = rng.choice([7, 8])
-            perm = rng.sample(UNSET_IN_DEFAULT, k)
-            out.append(["new"] + [f"set {f} {hexs(distinct_value(SETTERS[f], j))}" for j, f in enumerate(perm)])
     return out
 
 
